@@ -200,6 +200,14 @@ fn main() {
             println!("summary {:?}", r.get_summary().unwrap());
             for z in r.get_zoom_interval("chr1",0,2000,100).unwrap() { println!("{:?}", z.unwrap()); }
         }
+
+        "mkbwint" => {
+            let vals = vec![("chr1",Value{start:0,end:5,value:1.0}),("chr1",Value{start:5,end:9,value:2.0}),("chr1",Value{start:12,end:13,value:-3.0}),("chr1",Value{start:20,end:30,value:4.0}),("chr1",Value{start:30,end:31,value:5.0}),("chr1",Value{start:100,end:131,value:7.0}),("chr1",Value{start:140,end:141,value:6.0}),
+                            ("chrB2",Value{start:3,end:4,value:6.0}),("chrB2",Value{start:10,end:50,value:7.0}),("chrB2",Value{start:60,end:61,value:8.0})];
+            let bytes = write_bw(vals, &[("chr1",1000),("chrB2",500)], |w|{ w.options.compress=false; w.options.items_per_slot=2; w.options.block_size=2; w.options.manual_zoom_sizes=Some(vec![10,40]);});
+            std::fs::write("/tmp/scratch/t2.bw", &bytes).unwrap();
+            println!("{} bytes", bytes.len());
+        }
         _ => {}
     }
 }
